@@ -83,6 +83,32 @@ CLAIMED["C08"] = (
     "DESIGN.md §3 C08",
 )
 
+CLAIMED["C09"] = (
+    "proptest schedule/fault injection: pooled + perturbed + cancelled runs vs sequential reference, cancel exactly at the k-th poll through the cfg(fidget_verif) hook; shared-tape multi-thread differential",
+    "Generated workloads (2D, 3D, mesh) under custom pools of 1-16 threads with seeded yields/delays injected at every cancellation poll, and "
+    "cancellation before start, exactly at poll k (deterministic: the polling thread sets the token) or asynchronously; results must equal the "
+    "sequential run or be None exactly as the property states; one tape evaluated from many threads must give each its single-threaded results. "
+    "Schedules are sampled, not enumerated: exploration / fault injection, not model checking.",
+    "The hook only observes and perturbs cancellation polls (start of each tile task / octree cell). rayon's work stealing itself is not controlled.",
+    "DESIGN.md §3 C09",
+)
+CLAIMED["C10"] = (
+    "proptest stateful (model-based) histories: build / eval / simplify / recycle / RenderHandle with shared long-lived objects vs the same call on fresh objects",
+    "Generated operation sequences over functions of different sizes hand storage, evaluators and the workspace from one function to another; "
+    "after every evaluation and simplification the identical call is repeated on brand-new objects and outputs, traces and sizes are compared "
+    "bit-for-bit. The whole history shrinks as one value. Exploration.",
+    "Fresh objects are rebuilt from the spec and the recorded simplification chain; VM (255 registers) and x86_64 JIT.",
+    "DESIGN.md §3 C10",
+)
+CLAIMED["C11"] = (
+    "proptest totality search in child processes: overflow-biased DAGs x finite boxes/points/slices up to f32::MAX x 4 evaluator kinds x 2 backends; malformed argument lists must be Err",
+    "Generated-input robustness search: every evaluator entry point is driven with finite inputs over programs biased towards overflow and invalid "
+    "operations, under catch_unwind inside a child process (abort / segfault = worker death, reported with the breadcrumb input); returned intervals "
+    "must be well-formed; malformed argument lists must be reported as errors. Exploration.",
+    "Values are not judged here. One open finding (JIT half-NaN intervals, F14) is matched by signature.",
+    "DESIGN.md §3 C11",
+)
+
 NOT_YET = {
 }
 
